@@ -854,6 +854,193 @@ func mutation(r *hxlib.Rng, docLen, class int) int {
 	}
 }
 
+// ---------------------------------------------------------------- running one history
+
+// histKind: the names that differ between the hist mode and the env mode
+// (counter prefix, prefix of the oracle signatures).
+type histKind struct {
+	pfx string // "hist_" | "env_"
+	sig string // "c18-history" | "c18-env"
+}
+
+var plainHist = histKind{pfx: "hist_", sig: "c18-history"}
+
+// runHistory executes the events on the real code, one after the other, and
+// observes the whole process after every step: status of the step and deep
+// hash of every live object of every session (the returned lines, compared
+// with Proc.runD / Proc.runE of the model), payload immutability, isolation
+// and digests (oracle).  envs == nil: every step runs in the environment of the
+// process; otherwise step t runs under envs[t] (GOMAXPROCS, collector setting),
+// restored after the step.
+func runHistory(o *hxlib.Out, hk histKind, ss []*hsess, evs []event, envs []envSpec, detail0 func() map[string]any) []string {
+	cur := -1
+	detail := func() map[string]any {
+		dt := detail0()
+		if envs != nil && cur >= 0 && cur < len(envs) {
+			dt["env_of_step"] = envs[cur].String()
+		}
+		return dt
+	}
+
+	var steps []string
+	lastG3 := -1 // step index of the latest round 3 of any session
+	lastG3Sess := -1
+	reported := map[string]bool{}
+	g3Since := map[int]int{} // step of a round 3 whose random source failed -> successful round 3 since
+	for t, e := range evs {
+		s := ss[e.sess]
+		mm := map[bool]string{false: "memory", true: "bytes"}
+		if e.dk == "" && e.act == "e4" {
+			// class of the consumption: was a round 3 of ANOTHER session run after this message was produced?
+			after := "own-round3-latest"
+			if lastG3 > s.prodStep[slM3] && lastG3Sess != e.sess {
+				after = "after-foreign-round3"
+			}
+			o.Count(hk.pfx + "e4_msg3-" + mm[e.y] + "_" + after)
+			o.Count(hk.pfx + "e4_session-" + mm[e.x])
+		}
+		if e.dk == "" && e.act == "g3" {
+			o.Count(hk.pfx + "g3_session-" + mm[e.x] + "_msg2-" + mm[e.y])
+		}
+		if e.dk == "" && e.act == "e2" {
+			o.Count(hk.pfx + "e2_msg1-" + mm[e.x])
+		}
+		cur = t
+		var status, msg string
+		if envs != nil {
+			envs[t].around(func() { status, msg = s.exec(e, t, ss) })
+		} else {
+			status, msg = s.exec(e, t, ss)
+		}
+		if e.dk == "" && e.act == "g3" && status == "ok" {
+			lastG3, lastG3Sess = t, e.sess
+			for f := range g3Since {
+				g3Since[f]++
+				if g3Since[f] == 2 {
+					o.Count(hk.pfx + "fault_g3_rng_then-two-round3")
+				}
+			}
+		}
+		if e.dk != "" {
+			// classes of the failing steps
+			class := e.act + "_" + map[string]string{"r": "rng", "f": "foreign-msg", "s": "foreign-state", "u": "malformed"}[e.dk]
+			o.Count(hk.pfx + "fault_" + class + "_" + status)
+			if e.dk == "r" {
+				o.Count(fmt.Sprintf(hk.pfx+"fault_rng_kind%d", e.kind))
+				if e.act == "g3" {
+					region := "labels"
+					if e.off < 32 {
+						region = "key"
+					} else if e.off < 48 {
+						region = "r"
+					}
+					o.Count(hk.pfx + "fault_g3_rng_" + region)
+					g3Since[t] = 0
+				}
+			}
+			if e.dk == "u" {
+				o.Count(hk.pfx + "fault_malformed_" + map[bool]string{true: "cut", false: "extended"}[e.mu%2 == 0])
+			}
+			own := indexOf(evs, e.sess, e.act)
+			if own > t && own < len(evs) {
+				o.Count(hk.pfx + "fault_before-own-step")
+			} else {
+				o.Count(hk.pfx + "fault_after-own-step")
+			}
+			for _, later := range evs[t+1:] {
+				if later.sess != e.sess && later.dk == "" && later.act != "e4" {
+					o.Count(hk.pfx + "fault_followed-by-round123-of-other-session")
+					break
+				}
+			}
+			for _, later := range evs[t+1:] {
+				if later.sess != e.sess && later.dk == "" {
+					o.Count(hk.pfx + "fault_followed-by-step-of-other-session")
+					break
+				}
+			}
+		}
+		o.Count(hk.pfx + "steps")
+		steps = append(steps, status+"/"+stateLine(ss))
+		switch {
+		case status == "panic":
+			dt := detail()
+			dt["step"] = t
+			dt["event"] = e.String()
+			dt["msg"] = msg
+			dt["what"] = "step " + e.act + " crashes (disturbance " + e.dk + ")"
+			failK(o, hk.sig+"-crash", dt)
+		case e.dk == "" && status != "ok":
+			dt := detail()
+			dt["step"] = t
+			dt["event"] = e.String()
+			dt["status"] = status
+			dt["msg"] = msg
+			dt["what"] = "step " + e.act + " fails"
+			failK(o, hk.sig+"-diverges", dt)
+		case e.dk != "" && status != "err":
+			dt := detail()
+			dt["step"] = t
+			dt["event"] = e.String()
+			dt["status"] = status
+			dt["what"] = "disturbed step " + e.act + " (" + e.dk + ") is not answered with an error"
+			failK(o, hk.sig+"-fault-accepted", dt)
+		}
+		// payload immutability + isolation, judged on the real objects
+		for j, q := range ss {
+			for sl := 0; sl < nSlots; sl++ {
+				if !q.has[sl] {
+					continue
+				}
+				now := q.live(sl)
+				key := fmt.Sprintf("%d.%d", j, sl)
+				if now != q.prod[sl] && !reported[key] {
+					reported[key] = true
+					dt := detail()
+					dt["step"] = t
+					dt["event"] = e.String()
+					dt["changed_session"] = j
+					dt["changed_value"] = slotNames[sl]
+					dt["produced_at_step"] = q.prodStep[sl]
+					dt["hash_at_production"] = q.prod[sl]
+					dt["hash_now"] = now
+					rel := "own"
+					if j != e.sess {
+						rel = "other"
+					}
+					dt["what"] = slotNames[sl] + " of " + rel + " session changed by " + e.act
+					if e.dk != "" {
+						dt["what"] = slotNames[sl] + " of " + rel + " session changed by a FAILED " + e.act
+					}
+					failK(o, hk.sig+"-value-changed", dt)
+				}
+				if j == e.sess && e.dk == "" && q.prodStep[sl] == t && status == "ok" && now != q.ref[sl] {
+					dt := detail()
+					dt["step"] = t
+					dt["event"] = e.String()
+					dt["value"] = slotNames[sl]
+					dt["hash_isolated_run"] = q.ref[sl]
+					dt["hash_in_history"] = now
+					dt["what"] = slotNames[sl] + " differs from the isolated run"
+					failK(o, hk.sig+"-diverges", dt)
+				}
+			}
+		}
+		if e.act == "e4" && e.dk == "" && status == "ok" {
+			if want := refDigest(s.a, s.b); s.out != want {
+				dt := detail()
+				dt["step"] = t
+				dt["event"] = e.String()
+				dt["got"] = hxlib.Hex(s.out[:])
+				dt["want"] = hxlib.Hex(want[:])
+				dt["what"] = "digest"
+				failK(o, hk.sig+"-wrong-digest", dt)
+			}
+		}
+	}
+	return steps
+}
+
 // ---------------------------------------------------------------- the mode
 
 func stateLine(ss []*hsess) string {
@@ -954,157 +1141,7 @@ func histMode(args []string) int {
 		for _, s := range ss {
 			refs = append(refs, strings.Join(s.ref[:], ","))
 		}
-		// run the history on the real code, observe the whole process after every step
-		var steps []string
-		lastG3 := -1 // step index of the latest round 3 of any session
-		lastG3Sess := -1
-		reported := map[string]bool{}
-		g3Since := map[int]int{} // step of a round 3 whose random source failed -> successful round 3 since
-		for t, e := range evs {
-			s := ss[e.sess]
-			mm := map[bool]string{false: "memory", true: "bytes"}
-			if e.dk == "" && e.act == "e4" {
-				// class of the consumption: was a round 3 of ANOTHER session run after this message was produced?
-				after := "own-round3-latest"
-				if lastG3 > s.prodStep[slM3] && lastG3Sess != e.sess {
-					after = "after-foreign-round3"
-				}
-				o.Count("hist_e4_msg3-" + mm[e.y] + "_" + after)
-				o.Count("hist_e4_session-" + mm[e.x])
-			}
-			if e.dk == "" && e.act == "g3" {
-				o.Count("hist_g3_session-" + mm[e.x] + "_msg2-" + mm[e.y])
-			}
-			if e.dk == "" && e.act == "e2" {
-				o.Count("hist_e2_msg1-" + mm[e.x])
-			}
-			status, msg := s.exec(e, t, ss)
-			if e.dk == "" && e.act == "g3" && status == "ok" {
-				lastG3, lastG3Sess = t, e.sess
-				for f := range g3Since {
-					g3Since[f]++
-					if g3Since[f] == 2 {
-						o.Count("hist_fault_g3_rng_then-two-round3")
-					}
-				}
-			}
-			if e.dk != "" {
-				// classes of the failing steps
-				class := e.act + "_" + map[string]string{"r": "rng", "f": "foreign-msg", "s": "foreign-state", "u": "malformed"}[e.dk]
-				o.Count("hist_fault_" + class + "_" + status)
-				if e.dk == "r" {
-					o.Count(fmt.Sprintf("hist_fault_rng_kind%d", e.kind))
-					if e.act == "g3" {
-						region := "labels"
-						if e.off < 32 {
-							region = "key"
-						} else if e.off < 48 {
-							region = "r"
-						}
-						o.Count("hist_fault_g3_rng_" + region)
-						g3Since[t] = 0
-					}
-				}
-				if e.dk == "u" {
-					o.Count("hist_fault_malformed_" + map[bool]string{true: "cut", false: "extended"}[e.mu%2 == 0])
-				}
-				own := indexOf(evs, e.sess, e.act)
-				if own > t && own < len(evs) {
-					o.Count("hist_fault_before-own-step")
-				} else {
-					o.Count("hist_fault_after-own-step")
-				}
-				for _, later := range evs[t+1:] {
-					if later.sess != e.sess && later.dk == "" && later.act != "e4" {
-						o.Count("hist_fault_followed-by-round123-of-other-session")
-						break
-					}
-				}
-				for _, later := range evs[t+1:] {
-					if later.sess != e.sess && later.dk == "" {
-						o.Count("hist_fault_followed-by-step-of-other-session")
-						break
-					}
-				}
-			}
-			o.Count("hist_steps")
-			steps = append(steps, status+"/"+stateLine(ss))
-			switch {
-			case status == "panic":
-				dt := detail()
-				dt["step"] = t
-				dt["event"] = e.String()
-				dt["msg"] = msg
-				dt["what"] = "step " + e.act + " crashes (disturbance " + e.dk + ")"
-				failK(o, "c18-history-crash", dt)
-			case e.dk == "" && status != "ok":
-				dt := detail()
-				dt["step"] = t
-				dt["event"] = e.String()
-				dt["status"] = status
-				dt["msg"] = msg
-				dt["what"] = "step " + e.act + " fails"
-				failK(o, "c18-history-diverges", dt)
-			case e.dk != "" && status != "err":
-				dt := detail()
-				dt["step"] = t
-				dt["event"] = e.String()
-				dt["status"] = status
-				dt["what"] = "disturbed step " + e.act + " (" + e.dk + ") is not answered with an error"
-				failK(o, "c18-history-fault-accepted", dt)
-			}
-			// payload immutability + isolation, judged on the real objects
-			for j, q := range ss {
-				for sl := 0; sl < nSlots; sl++ {
-					if !q.has[sl] {
-						continue
-					}
-					now := q.live(sl)
-					key := fmt.Sprintf("%d.%d", j, sl)
-					if now != q.prod[sl] && !reported[key] {
-						reported[key] = true
-						dt := detail()
-						dt["step"] = t
-						dt["event"] = e.String()
-						dt["changed_session"] = j
-						dt["changed_value"] = slotNames[sl]
-						dt["produced_at_step"] = q.prodStep[sl]
-						dt["hash_at_production"] = q.prod[sl]
-						dt["hash_now"] = now
-						rel := "own"
-						if j != e.sess {
-							rel = "other"
-						}
-						dt["what"] = slotNames[sl] + " of " + rel + " session changed by " + e.act
-						if e.dk != "" {
-							dt["what"] = slotNames[sl] + " of " + rel + " session changed by a FAILED " + e.act
-						}
-						failK(o, "c18-history-value-changed", dt)
-					}
-					if j == e.sess && e.dk == "" && q.prodStep[sl] == t && status == "ok" && now != q.ref[sl] {
-						dt := detail()
-						dt["step"] = t
-						dt["event"] = e.String()
-						dt["value"] = slotNames[sl]
-						dt["hash_isolated_run"] = q.ref[sl]
-						dt["hash_in_history"] = now
-						dt["what"] = slotNames[sl] + " differs from the isolated run"
-						failK(o, "c18-history-diverges", dt)
-					}
-				}
-			}
-			if e.act == "e4" && e.dk == "" && status == "ok" {
-				if want := refDigest(s.a, s.b); s.out != want {
-					dt := detail()
-					dt["step"] = t
-					dt["event"] = e.String()
-					dt["got"] = hxlib.Hex(s.out[:])
-					dt["want"] = hxlib.Hex(want[:])
-					dt["what"] = "digest"
-					failK(o, "c18-history-wrong-digest", dt)
-				}
-			}
-		}
+		steps := runHistory(o, plainHist, ss, evs, nil, detail)
 		o.Op(fmt.Sprintf("hist %d %s %s", k, strings.Join(refs, "|"), strings.Join(sched, ",")), "hist "+strings.Join(steps, ";"))
 		// the digests obtained inside the history against the Lean evaluator
 		for _, s := range ss {
